@@ -123,4 +123,4 @@ def sweep(ctx, pid, n, kgroups, nbool=0, ndecomp=0):
 
 
 def run(ctx):
-    sweep(ctx, "C08", 80 if ctx.quick else 1800, None, nbool=90 if ctx.quick else 1500, ndecomp=130 if ctx.quick else 2500)
+    sweep(ctx, "C08", 80 if ctx.quick else 400, None, nbool=90 if ctx.quick else 450, ndecomp=130 if ctx.quick else 650)
